@@ -152,9 +152,27 @@ def divisibility_case(rng):
     return exprs, desc, shapes, {"b": known}, sorted({"a", "b"} | ({"c"} if extra else set()))
 
 
+def nonlinear_case(rng):
+    """two flattened axes sharing repeated axes: the real solution of the system is in general not an integer"""
+    pats = [[["a", "a", "b"], ["b", "b", "a"]], [["a", "b"], ["a", "a", "b"]], [["a", "a"], ["a", "b", "b"]], [["a", "b", "b"], ["b", "a"]]]
+    pat = rng.choice(pats)
+    exprs = [[("flat", [("ax", n) for n in g]) for g in pat]]
+    if rng.random() < 0.5:
+        sizes = {"a": rng.choice([1, 2, 3, 4]), "b": rng.choice([1, 2, 3, 5])}
+        shape = tuple(val(d, sizes) for d in exprs[0])
+        if rng.random() < 0.5:
+            shape = (shape[0] + rng.choice([1, 2, 5]), shape[1])
+    else:
+        shape = (rng.randint(2, 200), rng.randint(2, 200))
+    return exprs, " ".join(to_str(d) for d in exprs[0]), [shape], {}, ["a", "b"]
+
+
 def one_case(rng):
-    if rng.random() < 0.12:
+    r0 = rng.random()
+    if r0 < 0.12:
         return divisibility_case(rng)
+    if r0 < 0.24:
+        return nonlinear_case(rng)
     k = rng.randint(1, 4)
     names = list("abcd")[:k]
     sizes = {n: rng.choice([1, 2, 3, 4, 5, 6]) for n in names}
